@@ -44,6 +44,8 @@ type mCase struct {
 	Open    bool      `json:"open"`
 	Hostile bool      `json:"hostile"`
 	Lookups []mLookup `json:"lookups"`
+	Raw     string    `json:"raw,omitempty"` // manifest text to write instead of the document built from the fields (mutated documents)
+	RawB64  string    `json:"raw_b64,omitempty"`
 }
 
 type mObs struct {
@@ -101,6 +103,13 @@ func runBundle(base string, c *mCase) (obs *mObs) {
 		doc.Registry = append(doc.Registry, rj{r.Source, map[string]rv{r.Version: {r.Target}}})
 	}
 	b, _ := json.MarshalIndent(doc, "", "  ")
+	if c.Raw == "\x00render" {
+		c.Raw = string(b) // the caller wants the rendered document (to mutate it)
+		return
+	}
+	if c.Raw != "" {
+		b = []byte(c.Raw)
+	}
 	os.WriteFile(filepath.Join(root, "terraform-sources.json"), b, 0644)
 	bundle, err := sourcebundle.OpenDir(root)
 	if err != nil {
